@@ -40,6 +40,8 @@ func runC09(c *Ctx) {
 	c09PageMap(c, "C09")
 	c09WithOffset(c)
 	c09SyncReader(c)
+	// "no page beyond the committed database size": header Commit provenance
+	ltxHeaderRules(c)
 }
 
 func isReadAt(s string) bool { return s == "iface:io.ReaderAt.ReadAt" || s == "(*os.File).ReadAt" }
@@ -408,6 +410,60 @@ func c09PageMap(c *Ctx, prop string) {
 		c.check(isKey, rule, fnName(fn)+": trim iterates over the page map's own keys", c.pos(call), "range key of the returned map", "deleted key does not range over the returned map")
 	}
 	c.floor(rule, nDel, 1, "trim of pages above commit (delete on the returned map)")
+	// (v) maxOffset = end of the last *committed* frame: max over the returned map's offsets + frame size
+	nMaxOff := 0
+	defer func() { c.floor(rule, nMaxOff, 1, "non-constant maxOffset results of pageMap") }()
+	for _, r := range returns(fn) {
+		if len(r.Results) < 2 || !isRet(r.Results[0]) {
+			continue
+		}
+		good, n := true, 0
+		for _, o := range origins(r.Results[1]) {
+			if k, isC := o.(*ssa.Const); isC {
+				if v, _ := constInt(k); v != 0 {
+					good = false
+				}
+				continue
+			}
+			n++
+			b, isB := o.(*ssa.BinOp)
+			if !isB || b.Op != token.ADD {
+				good = false
+				continue
+			}
+			fromMap := func(v ssa.Value) bool {
+				sawVal := false
+				for _, oo := range origins(v) {
+					if k, isC := oo.(*ssa.Const); isC {
+						if x, _ := constInt(k); x == 0 {
+							continue
+						}
+						return false
+					}
+					ex, isE := oo.(*ssa.Extract)
+					if !isE || ex.Index != 2 {
+						return false
+					}
+					nx, isN := ex.Tuple.(*ssa.Next)
+					if !isN {
+						return false
+					}
+					rg, isR := nx.Iter.(*ssa.Range)
+					if !isR || !isRet(rg.X) {
+						return false
+					}
+					sawVal = true
+				}
+				return sawVal
+			}
+			if !(fromMap(b.X) || fromMap(b.Y)) {
+				good = false
+			}
+		}
+		nMaxOff += n
+		c.check(good, rule, fnName(fn)+": returned maxOffset = (max offset in the committed page map) + frame size", c.pos(r),
+			"derived only from offsets stored in the returned map", "maxOffset is not derived from committed frames only (it could point past uncommitted trailing frames, moving the cursor inside an open transaction)")
+	}
 	// commit result = commit field of the last commit frame
 	for _, r := range returns(fn) {
 		if len(r.Results) >= 3 && isRet(r.Results[0]) {
